@@ -167,11 +167,14 @@ def well_terminated(typ, data):
     return True          # bin: an empty image is a complete (empty) file
 
 
-def judge(lines, files, typ, listing, must_fail):
+def judge(lines, files, typ, opts, must_fail):
     src = "\n".join(lines) + "\n"
-    args = corpus.inc_args() + (("-l",) if listing else ())
+    if isinstance(opts, bool):
+        opts = ("-l",) if opts else ()
+    opts = tuple(opts)
+    args = corpus.inc_args() + opts
     f = dict(files)
-    if listing:
+    if "-l" in opts:
         f["out.lst"] = STALE
     r = asm.assemble(src, typ, args=args, files=f, stale=STALE)
     if r.kind != "ok":
@@ -223,7 +226,11 @@ def run(ctx):
             unseeded.append(cpu)
     for name, lines in GENERIC:
         seeds.append((name, lines, GENERIC_FILES, 1))
-    configs = [("hex", False), ("elf", True)] if q else [("hex", False), ("hex", True), ("bin", False), ("elf", True), ("srec", False), ("srec", True)]
+    if q:
+        configs = [("hex", ()), ("elf", ("-l",)), ("hex", ("-q",)), ("srec", ("-q", "-l", "-dump_symbols"))]
+    else:
+        configs = [("hex", ()), ("hex", ("-l",)), ("bin", ()), ("elf", ("-l",)), ("srec", ()), ("srec", ("-l",)), ("hex", ("-q",)),
+                   ("elf", ("-q", "-dump_symbols")), ("bin", ("-q", "-l", "-dump_macros"))]
     jobs, meta = [], []
     for si, (name, lines, files, first) in enumerate(seeds):
         # the seed itself must pass in every configuration
@@ -231,7 +238,7 @@ def run(ctx):
             jobs.append((lines, files, typ, lst, False))
             meta.append((name, "seed", typ, lst))
         for ci, (op, must, l2, f2) in enumerate(corruptions(lines, files, first, name)):
-            cfgs = configs if not q else [configs[(si + ci) % len(configs)]]
+            cfgs = configs if not q else [configs[(si + ci) % len(configs)], configs[(si + ci + 2) % len(configs)]]
             for typ, lst in cfgs:
                 jobs.append((l2, f2, typ, lst, must))
                 meta.append((name, op, typ, lst))
@@ -249,7 +256,7 @@ def run(ctx):
         src = "\n".join(lines) + "\n"
         states.add((src, typ, lst, kind))
         if kind:
-            ctx.violation({"src": src, "type": typ, "l": lst}, kind, "[%s %s -type %s%s] %s" % (name, op, typ, " -l" if lst else "", detail),
+            ctx.violation({"src": src, "type": typ, "l": lst}, kind, "[%s %s -type %s %s] %s" % (name, op, typ, " ".join(lst), detail),
                           {"lines": lines, "files": files, "type": typ, "listing": lst, "must_fail": must})
     samples = []
     for j in check.sample(range(len(jobs)), 4):
@@ -259,11 +266,11 @@ def run(ctx):
                    "(source, type, -l); non-trivial = a corrupted program (the uncorrupted seeds only calibrate the oracle)",
            "samples": samples, "states": len(states), "transitions": len(res), "traces_validated_against_impl": len(res),
            "seeds": [s[0] for s in seeds], "cpus_without_seed": unseeded, "operators": ops, "outcomes": outcomes,
-           "configs": ["%s%s" % (t, " -l" if l else "") for t, l in configs]}
+           "configs": ["%s %s" % (t, " ".join(l)) for t, l in configs]}
     return ctx.finish(cov, ["process seam: rel naken_asm CLI with a stale output file (and stale .lst) planted before every run",
                             "a diagnostic is any stdout line matching \\b(Error|error)\\b; completeness of the output means well-terminated for its type (contents are C03's question)"])
 
 
 def replay(rec):
     kind, detail = judge(rec["lines"], rec.get("files") or {}, rec["type"], rec["listing"], rec["must_fail"])
-    return bool(kind), "%s\n[-type %s%s] -> %s %s" % ("\n".join(rec["lines"]), rec["type"], " -l" if rec["listing"] else "", kind, detail)
+    return bool(kind), "%s\n[-type %s %s] -> %s %s" % ("\n".join(rec["lines"]), rec["type"], rec["listing"], kind, detail)
